@@ -40,6 +40,8 @@ func (h *HostLog) Func(name string) (interface{}, bool) {
 		return func(x interface{}) (interface{}, error) { return x, nil }, true
 	case "fail":
 		return func(x interface{}) (interface{}, error) { h.add("fail", x); return nil, errors.New("host failure") }, true
+	case "failv":
+		return func(x interface{}) (interface{}, error) { h.add("failv", x); return -1, errors.New("host failure with a value") }, true
 	case "recs":
 		return func(xs ...interface{}) (interface{}, error) {
 			h.add("recs", xs...)
@@ -108,25 +110,83 @@ func safeResolve(r *formula.Runner, e formula.Expression) (v interface{}, err er
 	return r.Resolve(context.Background(), e)
 }
 
-// EvalObserve evaluates expr (wrapped) on runner r and projects the outcome:
-// <<"ok", value, [this, log]>> | <<"err", [this, log]>> | <<"PANIC", msg>> | <<"BROKEN", why>>
-func EvalObserve(r *formula.Runner, h *HostLog, e formula.Expression) any {
-	v, err := safeResolve(r, Wrap(e))
+// root-node observation through the guarded resolve hook (H2): the exact result of the root
+// node before the top-level conversion to float64, keyed by runner so that workers do not
+// interfere.
+type rootObs struct {
+	root  formula.Expression
+	res   interface{}
+	err   error
+	seen  bool
+	nodes int
+}
+
+var (
+	hookOnce  sync.Once
+	rootWatch sync.Map // *formula.Runner -> *rootObs
+)
+
+func installHooks() {
+	hookOnce.Do(func() {
+		nop := func() {}
+		formula.VerifResolveHook = func(r *formula.Runner, v formula.Expression, res *interface{}, err *error) func() {
+			o, ok := rootWatch.Load(r)
+			if !ok {
+				return nop
+			}
+			ob := o.(*rootObs)
+			ob.nodes++
+			if v != ob.root {
+				return nop
+			}
+			return func() { ob.res, ob.err, ob.seen = *res, *err, true }
+		}
+	})
+}
+
+// TopLevel is what the caller of Runner.Resolve sees plus the exact root value.
+type TopLevel struct {
+	Val     interface{} // value returned by Resolve
+	Err     error
+	Root    interface{} // exact result of the root node (hook), nil if not observed
+	RootOK  bool
+	Panic   any
+	HasBoth bool // non-nil value together with a non-nil error
+}
+
+func ResolveTop(r *formula.Runner, e formula.Expression) TopLevel {
+	installHooks()
+	ob := &rootObs{root: e}
+	rootWatch.Store(r, ob)
+	defer rootWatch.Delete(r)
+	v, err := safeResolve(r, e)
+	t := TopLevel{Val: v, Err: err, Root: ob.res, RootOK: ob.seen && ob.err == nil}
 	if pe, ok := err.(panicError); ok {
-		return proj.T{"PANIC", fmt.Sprint(pe.v)}
+		t.Panic = pe.v
+	}
+	t.HasBoth = err != nil && v != nil
+	return t
+}
+
+// EvalObserve evaluates expr on runner r through the public Resolve and projects the outcome:
+// <<"ok", value, [this, log]>> | <<"err", [this, log]>> | <<"PANIC", msg>> | <<"BROKEN", why>>
+// The value is the exact result of the root node (a number keeps its decimal).
+func EvalObserve(r *formula.Runner, h *HostLog, e formula.Expression) any {
+	t := ResolveTop(r, e)
+	if t.Panic != nil {
+		return proj.T{"PANIC", fmt.Sprint(t.Panic)}
 	}
 	st := map[string]any{"this": RunnerState(r), "log": append([]any{}, h.Log...)}
-	if err != nil {
-		if v != nil {
-			return proj.T{"BROKEN", "non-nil value together with an error"}
+	if t.Err != nil {
+		if t.HasBoth {
+			return proj.T{"BROKEN", fmt.Sprintf("non-nil value %v together with an error", t.Val)}
 		}
 		return proj.T{"err", st}
 	}
-	a, ok := v.([]interface{})
-	if !ok || len(a) != 1 {
-		return proj.T{"BROKEN", fmt.Sprintf("wrapped result is %T", v)}
+	if !t.RootOK {
+		return proj.T{"BROKEN", "root node not observed by the resolve hook"}
 	}
-	return proj.T{"ok", proj.Value(a[0]), st}
+	return proj.T{"ok", proj.Value(t.Root), st}
 }
 
 type evalFam struct{}
